@@ -1348,12 +1348,50 @@ func holdsPathwise(v ssa.Value, want bool, x *ssa.BasicBlock) bool {
 		return false
 	}
 	// quick reject: v must be mentioned by some branch or boolean phi
+	// x == k and x != k (same operands, possibly separate instructions) are one condition with two polarities
+	type eqKey struct {
+		x ssa.Value
+		y string
+	}
+	reps := map[eqKey]ssa.Value{}
+	keyOf := func(bo *ssa.BinOp) (eqKey, bool) {
+		if bo.Op != token.EQL && bo.Op != token.NEQ {
+			return eqKey{}, false
+		}
+		x, y := bo.X, bo.Y
+		if _, isC := x.(*ssa.Const); isC {
+			x, y = y, x
+		}
+		if cst, isC := y.(*ssa.Const); isC {
+			if cst.Value == nil {
+				return eqKey{x, "nil"}, true
+			}
+			return eqKey{x, cst.Value.ExactString()}, true
+		}
+		return eqKey{}, false
+	}
+	Instrs(fn, func(in ssa.Instruction) {
+		if bo, ok := in.(*ssa.BinOp); ok && bo.Op == token.EQL {
+			if k, okK := keyOf(bo); okK {
+				if _, has := reps[k]; !has {
+					reps[k] = bo
+				}
+			}
+		}
+	})
 	base := func(c ssa.Value) (ssa.Value, bool) {
 		neg := false
 		for {
 			if u, ok := c.(*ssa.UnOp); ok && u.Op == token.NOT {
 				c, neg = u.X, !neg
 				continue
+			}
+			if bo, ok := c.(*ssa.BinOp); ok {
+				if k, okK := keyOf(bo); okK {
+					if rep, has := reps[k]; has && rep != c {
+						return rep, neg != (bo.Op == token.NEQ)
+					}
+				}
 			}
 			return c, neg
 		}
